@@ -453,14 +453,28 @@ def dwc_summary(repo, rep):
     n, iv = cands[0]
     ok, why = check_spec(kappa, iv, T, C)
     closed = iv.closed_lo and iv.closed_hi
-    # must-pass: under kappa not None, no path entry -> `return True` avoiding the accept edge of n
+    # several copies of the test (the same check on different branches, e.g. after a result variable was threaded through
+    # the branches): each copy must be the right test, and every accepting path must pass one of them
+    for n_x, iv_x in cands[1:]:
+      ok_x, why_x = check_spec(kappa, iv_x, T, C)
+      if ok_x is not True and ok is True:
+        n, iv, ok, why = n_x, iv_x, ok_x, why_x
+      closed = closed and iv_x.closed_lo and iv_x.closed_hi
+    cand_nodes = {id(n_x): (n_x, iv_x) for n_x, iv_x in cands}
+    # must-pass: under kappa not None, no path entry -> `return True` avoiding the accept edges of the candidate tests
     facts = {P + kappa: 'notnone'}
     res_dw = lambda node, e_: ctx.rd.expand(node, e_)[0]
-    ef = cfgmod.edge_filter_under(g, facts, resolve_at=res_dw, extra=lambda a, b, lab, n=n, iv=iv: lab != 'exc' and accept_edge_ok(n, iv)(a, b, lab))
+
+    def accept_all(a, b, lab):
+      if lab == 'exc':
+        return False
+      if id(a) in cand_nodes:
+        return accept_edge_ok(*cand_nodes[id(a)])(a, b, lab)
+      return True
+    ef = cfgmod.edge_filter_under(g, facts, resolve_at=res_dw, extra=accept_all)
     p = g.path_avoiding(g.entry, lambda m: m in true_rets, lambda m: False, ef)
-    passes_n = p is not None and any(x is n for x, _ in p)
-    # a path to `return True` that does not go through n at all?
-    p2 = g.path_avoiding(g.entry, lambda m: m in true_rets, lambda m: m is n, cfgmod.edge_filter_under(g, facts, resolve_at=res_dw, extra=cfgmod.no_exc))
+    # a path to `return True` that does not go through any of them at all?
+    p2 = g.path_avoiding(g.entry, lambda m: m in true_rets, lambda m: id(m) in cand_nodes, cfgmod.edge_filter_under(g, facts, resolve_at=res_dw, extra=cfgmod.no_exc))
     must = p2 is None and p is not None
     e = Enforcement(kappa, n, iv, norm(iv.v), f.loc(n.expr), ok, why, closed)
     e.must = must
